@@ -558,6 +558,12 @@ func newSSAStyleFromString(content string, format map[int]string) (s *ssaStyle, 
 			attr = ssaStyleFormatNameStrikeout
 		}
 
+		// An empty cell leaves a typed attribute unset: this is what the writer emits for a style lacking an
+		// attribute that another style of the list has, and no number, boolean or colour can be parsed out of it
+		if item == "" && attr != ssaStyleFormatNameName && attr != ssaStyleFormatNameFontName {
+			continue
+		}
+
 		// Switch on attribute name
 		switch attr {
 		// Bool
